@@ -4,6 +4,7 @@ import (
 	"bytes"
 	"fmt"
 	"io"
+	"time"
 
 	ws "github.com/gorilla/websocket"
 
@@ -28,7 +29,7 @@ func init() {
 		Run:          runC05,
 		BeatTimeoutS: 60,
 		Exhaustive:   false,
-		Required:     []string{"faults_injected", "messages_reported_complete", "partial_messages_refused", "streams_read_through_joinmessages"},
+		Required:     []string{"faults_injected", "messages_reported_complete", "partial_messages_refused", "streams_read_through_joinmessages", "retries_after_moving_the_read_deadline", "executions_under_a_sufficient_read_limit"},
 		Assumptions: []string{
 			"exhaustive over cut offsets x fault kinds for each generated stream; streams, chunkings and read programs are sampled",
 			"after a read error delivered together with data, a message completed by that data may or may not be reported complete (lower <= j <= upper)",
@@ -149,6 +150,23 @@ func c05Exec(out *core.Out, st *Stream, exp []Ev, ends []int, cut, kind int, ex 
 		out.Count("executions_with_broken_write_side", 1)
 	}
 	c := ws.VerifNewConn(nc, ex.Server, ex.RB, 256, nil, nil, ex.Comp)
+	if cut%4 == 2 {
+		// a read limit that every message meets on the wire (it does not bound what inflates from it)
+		var limit int64 = 1
+		for _, e := range exp {
+			var sum int64
+			for fi := e.First; fi <= e.Last; fi++ {
+				if !st.Frames[fi].IsControl() {
+					sum += int64(len(st.Frames[fi].Payload))
+				}
+			}
+			if sum > limit {
+				limit = sum
+			}
+		}
+		c.SetReadLimit(limit)
+		out.Count("executions_under_a_sufficient_read_limit", 1)
+	}
 	out.Count("faults_injected", 1)
 	if resumes {
 		out.Count("faults_after_which_transport_resumes", 1)
@@ -309,7 +327,16 @@ func c05Exec(out *core.Out, st *Stream, exp []Ev, ends []int, cut, kind int, ex 
 	if termErr == nil {
 		return fail("no-error", "no error followed the messages")
 	}
-	// sticky: NextReader now fails, with one and the same error
+	// sticky: NextReader now fails, with one and the same error - also for an application that
+	// moves its read deadline forward (or clears it) before trying again
+	if cut%3 == 1 {
+		if cut%2 == 1 {
+			c.SetReadDeadline(time.Now().Add(time.Hour))
+		} else {
+			c.SetReadDeadline(time.Time{})
+		}
+		out.Count("retries_after_moving_the_read_deadline", 1)
+	}
 	_, _, e1 := c.NextReader()
 	if e1 == nil {
 		return fail("next-reader-after-failure", "NextReader succeeded after a transport failure")
